@@ -323,6 +323,60 @@ theorem group_then_motions_then_undo (h : Nat) (rule : Bool → Bool) (hr0 : rul
         · exact hs
   exact hinv ms k1 hms rfl (Or.inl hu)
 
+/-! ### cursor position reports are invisible to undo -/
+
+/-- a run of one handler with cursor position reports (`none`) arriving at arbitrary key boundaries -/
+def runSameCpr (h : Nat) (rule : Bool → Bool) (items : List (Option (Buf → Buf))) (k : KSt) : KSt :=
+  items.foldl (fun k it => match it with
+    | some f => callHandler h rule [Act.edit f] k
+    | none => cprResponse k) k
+
+/-- **cpr_keeps_everything.**  A CPR response changes neither the buffer, nor the undo / redo
+    stacks, nor the previous handler. -/
+theorem cpr_keeps_everything (k : KSt) :
+    (cprResponse k).st = k.st ∧ (cprResponse k).prev = k.prev := ⟨rfl, rfl⟩
+
+/-- **cpr_invisible_in_run.**  CPR responses interleaved with the keys of a run change nothing:
+    the result is that of the run without them (same text, same stacks, same grouping). -/
+theorem cpr_invisible_in_run (h : Nat) (rule : Bool → Bool) (items : List (Option (Buf → Buf)))
+    (k : KSt) : runSameCpr h rule items k = runSame h rule (items.filterMap id) k := by
+  induction items generalizing k with
+  | nil => rfl
+  | cons it its ih =>
+    cases it with
+    | none => simpa [runSameCpr, cprResponse] using ih k
+    | some f => simpa [runSameCpr, runSame] using ih (callHandler h rule [Act.edit f] k)
+
+/-- **group_with_cpr_undone_as_one.**  `type a b <CPR> c d`, undo: a run of an `if_no_repeat`
+    handler with CPR responses at ANY key boundaries (before, between, after the keys) is still
+    undone by ONE undo, back to the exact (text, cursor) from before the run. -/
+theorem group_with_cpr_undone_as_one (h : Nat) (rule : Bool → Bool) (hr0 : rule false = true)
+    (hr1 : rule true = false) (k0 : KSt) (hp : k0.prev ≠ some h)
+    (items : List (Option (Buf → Buf))) (f : Buf → Buf) (fs : List (Buf → Buf))
+    (hitems : items.filterMap id = f :: fs) :
+    let k1 := runSameCpr h rule items k0
+    k1.st.buf.text ≠ k0.st.buf.text → (undo k1.st).buf = k0.st.buf := by
+  intro k1 hne
+  have hk : k1 = runSame h rule (f :: fs) k0 := by
+    show runSameCpr h rule items k0 = _
+    rw [cpr_invisible_in_run, hitems]
+  rw [hk] at hne ⊢
+  exact (group_undone_as_one h rule hr0 hr1 k0 hp f fs hne).1
+
+/-- **cpr_through_call_handler_splits_run** (why `_process_cpr_response` must not touch
+    `_previous_handler`): if the report were dispatched like a key — a `_call_handler` of the CPR
+    binding (identity 99, `save_before` never, empty body), which records itself as the previous
+    handler — then after `a b <CPR> c d` one undo would give `ab`, not the text before the run. -/
+theorem cpr_through_call_handler_splits_run :
+    let rule : Bool → Bool := fun rep => !rep
+    let k0 := kInit { text := [], cur := 0 }
+    let k1 := runSame 0 rule [insertText ['a'], insertText ['b']] k0
+    let k2 := callHandler 99 (fun _ => false) [] k1
+    let k3 := runSame 0 rule [insertText ['c'], insertText ['d']] k2
+    (undo k3.st).buf = { text := ['a', 'b'], cur := 2 } ∧
+    (undo (runSame 0 rule [insertText ['c'], insertText ['d']] (cprResponse k1)).st).buf = k0.st.buf := by
+  decide
+
 /-- **ungrouped_when_every_call_saves** (the defect found in /repo, shown on the model).
     If the effective rule of the self-insert binding is `always` — which is what
     `KeyBindings.add(..., save_before=if_no_repeat)(<Binding>)` produced before /repo commit 3961882,
@@ -800,6 +854,16 @@ example :
     v.ins = false ∧
     (vRun ([.i] ++ [.x, .u] ++ [.escape, .u]) v).k.st.buf = viFix v.k.st.buf ∧
     (vRun [.i, .x, .u] v).k.st.buf ≠ v.k.st.buf := by
+  decide
+
+/-- group_with_cpr_undone_as_one: `a b <CPR> c d` with a leading and a trailing CPR satisfies its hypotheses -/
+example :
+    let items : List (Option (Buf → Buf)) :=
+      [none, some (insertText ['a']), some (insertText ['b']), none, some (insertText ['c']),
+       some (insertText ['d']), none]
+    let k0 : KSt := { st := { buf := exB0, undo := [], redo := [exB0] }, prev := some 7 }
+    (runSameCpr 0 (fun rep => !rep) items k0).st.buf = { text := ['x', 'a', 'b', 'c', 'd', 'y'], cur := 5 } ∧
+    (undo (runSameCpr 0 (fun rep => !rep) items k0).st).buf = exB0 := by
   decide
 
 /-- snapshots_valid: the concrete edits used here keep documents valid -/
